@@ -3,6 +3,7 @@ CFG = {
         J("scaled", "c02-comp --aspect C14", imports="Base Stream Inst Run RunFsComp", shard=20),
         J("scaled", "witness --only C14"),
         J("scaled", "c14", imports="Base Stream Inst Run RunFsComp RunFsStack"),
+        J("prod", "c14"),
     ],
     "run_modules": ["RunFsComp", "RunFsStack"],
     "rule": "scaled constants (CHUNK=64, TAG=16): 60 (quick) / 400 (thorough) generated archives with at least one piece (1-4 files, "
@@ -57,3 +58,7 @@ CFG = {
 # work package fscomp: the fail-safe decompression reader (appended to the texts above)
 CFG["rule"] += "; " + CFG.pop("rule_fscomp")
 CFG["explanation"] += " || " + CFG.pop("explanation_fscomp")
+
+# round-4 seed C14-m7
+CFG["rule"] += ("; chunk-edge family (both flavours): a first append that leaves the stream at every distance (scaled: every third; thorough: every) from an encryption-chunk "
+                "boundary, then a small append of 1-40 bytes, a flush, a cut: unauthenticated repair of the flushed bytes recovers both appends")
